@@ -1,17 +1,16 @@
-(* Simulation: the Charge state machine as coded vs the ideal cache-free container, for all op
-   sequences (removals included) in which no removal empties a non-empty frame. *)
+(* Simulation: the Charge state machine as coded (after the repairs of C14-F4/F5) vs the ideal
+   cache-free container, for ALL op sequences (removals, clusters anywhere, any arrays); and the
+   accumulator with removals (the ledger) for all sequences with non-negative arrays. *)
 From Coq Require Import ZArith QArith Qround List Bool Lia Lqa Arith.
 From PyxelV Require Import Model.Charge Proofs.ChargeLemmas Proofs.ChargeRefine.
 Import ListNotations.
 Open Scope Q_scope.
 
-Definition op_ok_rm (g : geom) (o : op) : bool := op_arrays_nonneg o && op_clusters (inside g) o.
-
 Definition Sim (g : geom) (s t : state) : Prop :=
   st_frame s = st_frame t /\
   Shape (g_rows g) (g_cols g) (st_arr s) /\
   (st_frame s = [] -> st_arr s = st_arr t) /\
-  forallb (inside g) (fcl (st_frame s)) = true.
+  (st_frame t <> [] -> st_arr t = zeros (g_rows g) (g_cols g)).
 
 Lemma flat_map_nil {A B} (F : A -> list B) l : (forall x, In x l -> F x = []) -> flat_map F l = [].
 Proof.
@@ -25,89 +24,74 @@ Proof.
   symmetry. apply gt0_false. rewrite (all_zero_mget a i j Z). apply Qle_refl.
 Qed.
 
-Lemma centre_inside s i n :
-  0 < s -> (i < n)%nat -> 0 <= centre s i /\ centre s i < inject_Z (Z.of_nat n) * s.
-Proof.
-  intros Hs Hi. unfold centre.
-  assert (H2 : 0 < s / 2) by (apply Qlt_shift_div_l; [reflexivity| rewrite Qmult_0_l; auto]).
-  assert (H3 : s / 2 < s) by (apply Qlt_shift_div_r; [reflexivity|]; lra).
-  assert (H4 : 0 <= inject_Z (Z.of_nat i)) by (change 0 with (inject_Z 0); rewrite <- Zle_Qle; lia).
-  assert (H5 : inject_Z (Z.of_nat i) + 1 <= inject_Z (Z.of_nat n)).
-  { change 1 with (inject_Z 1). rewrite <- inject_Z_plus, <- Zle_Qle. lia. }
-  assert (H6 : 0 <= inject_Z (Z.of_nat i) * s) by (apply Qmult_le_0_compat; auto; apply Qlt_le_weak; auto).
-  split; [lra|].
-  apply Qlt_le_trans with ((inject_Z (Z.of_nat i) + 1) * s); [lra|].
-  apply Qmult_le_compat_r; auto. apply Qlt_le_weak; auto.
-Qed.
-
-Lemma centres_all_inside g a : geom_ok g = true -> forallb (inside g) (centres g a) = true.
-Proof.
-  intros Hg. apply forallb_forall. intros c Hc.
-  destruct (centres_inside g a c Hg Hc) as [i [j [Hi [Hj [Ev [Eh _]]]]]].
-  destruct (geom_ok_pos g Hg) as [P1 P2].
-  destruct (centre_inside _ _ _ P1 Hi) as [A B]. destruct (centre_inside _ _ _ P2 Hj) as [C D].
-  unfold inside. rewrite Ev, Eh. repeat rewrite andb_true_iff. repeat split.
-  - apply Qle_bool_iff; auto.
-  - apply negb_true_iff. destruct (Qle_bool _ _) eqn:E; auto. apply Qle_bool_iff in E. exfalso; apply (Qlt_not_le _ _ B E).
-  - apply Qle_bool_iff; auto.
-  - apply negb_true_iff. destruct (Qle_bool _ _) eqn:E; auto. apply Qle_bool_iff in E. exfalso; apply (Qlt_not_le _ _ D E).
-Qed.
-
 Lemma renumber_cons_ne c l : renumber (c :: l) <> [].
 Proof. intro E. apply renumber_nil in E. discriminate. Qed.
 
-Lemma add_sim g s t cs :
-  geom_ok g = true -> Sim g s t -> forallb (inside g) cs = true ->
-  Sim g (add_frame g s cs) (ideal_add g t cs).
+Lemma add_sim g s t cs : Sim g s t -> Sim g (add_frame g s cs) (ideal_add g t cs).
 Proof.
-  intros Hg [EF [HS [EA HI]]] Hcs. unfold add_frame, ideal_add. rewrite <- EF.
+  intros [EF [HS [EA HZ]]]. unfold add_frame, ideal_add. rewrite <- EF.
   destruct (st_frame s) as [|p f] eqn:F.
   - specialize (EA eq_refl). rewrite <- EA.
     destruct (all_zero (st_arr s)) eqn:Z.
     + rewrite (centres_all_zero g _ Z). simpl app.
       destruct cs as [|c l].
-      * split; [simpl; auto|]. split; [exact HS|]. split; [intros _; exact EA|]. reflexivity.
+      * split; [simpl; auto|]. split; [exact HS|]. split; [intros _; exact EA|]. exact HZ.
       * split; [reflexivity|]. split; [exact HS|]. split.
         -- cbn [st_frame]. intros E. exfalso. exact (renumber_cons_ne _ _ E).
-        -- cbn [st_frame]. rewrite fcl_renumber. exact Hcs.
+        -- reflexivity.
     + destruct (centres g (st_arr s) ++ cs) as [|c l] eqn:E.
-      * split; [simpl; auto|]. split; [exact HS|]. split; [intros _; exact EA|]. reflexivity.
+      * split; [simpl; auto|]. split; [exact HS|]. split; [intros _; exact EA|]. exact HZ.
       * split; [reflexivity|]. split; [exact HS|]. split.
         -- cbn [st_frame]. intros E'. exfalso. exact (renumber_cons_ne _ _ E').
-        -- cbn [st_frame]. rewrite fcl_renumber, <- E, forallb_app, centres_all_inside, Hcs; auto.
+        -- reflexivity.
   - split; [reflexivity|]. split; [exact HS|]. split.
     + cbn [st_frame]. intros E. apply renumber_nil in E. simpl in E. discriminate.
-    + cbn [st_frame]. rewrite fcl_renumber, forallb_app, Hcs. try rewrite F in HI. rewrite HI. reflexivity.
+    + intros _. cbn [st_arr]. apply HZ. rewrite <- EF. discriminate.
 Qed.
 
-Lemma forallb_fcl_filter g (p : Z * cluster -> bool) f :
-  forallb (inside g) (fcl f) = true -> forallb (inside g) (fcl (filter p f)) = true.
+(* a removal keeps the rows selected by q: the frame becomes the same on both sides, and the
+   repaired code zeroes the array exactly when the ideal container's array is the zero array *)
+Lemma removed_sim g s t (q : Z * cluster -> bool) :
+  Sim g s t ->
+  Sim g (removed g s (filter q (st_frame s))) {| st_arr := st_arr t; st_frame := filter q (st_frame t) |}.
 Proof.
-  unfold fcl. induction f as [|x f IH]; simpl; auto. intros H. apply andb_true_iff in H. destruct H as [A B].
-  destruct (p x); simpl; [rewrite A|]; auto.
+  intros [EF [HS [EA HZ]]]. unfold removed. rewrite <- EF.
+  destruct (st_frame s) as [|p f] eqn:F.
+  - simpl. split; [reflexivity|]. split; [exact HS|]. split; [intros _; apply EA; reflexivity|].
+    cbn [st_frame]. intros N. contradiction.
+  - assert (NZ : st_arr t = zeros (g_rows g) (g_cols g)) by (apply HZ; rewrite <- EF; discriminate).
+    destruct (filter q (p :: f)) as [|x r] eqn:E.
+    + split; [reflexivity|]. split; [apply Shape_zeros|]. split; [intros _; cbn [st_arr]; auto|].
+      cbn [st_frame]. intros N. contradiction.
+    + split; [reflexivity|]. split; [exact HS|]. split; [cbn [st_frame]; discriminate|].
+      intros _. exact NZ.
 Qed.
 
-Definition not_emptying (o : op) (before after : frame_t) : bool :=
-  if is_removal o then match before, after with _ :: _, [] => false | _, _ => true end else true.
+Lemma filter_false {A} (l : list A) : filter (fun _ => false) l = [].
+Proof. induction l; simpl; auto. Qed.
+
+Lemma removed_all_sim g s t :
+  Sim g s t -> Sim g (removed g s []) {| st_arr := st_arr t; st_frame := [] |}.
+Proof.
+  intros H. pose proof (removed_sim g s t (fun _ => false) H) as R. rewrite !filter_false in R. exact R.
+Qed.
 
 Lemma step_sim g s t o :
-  geom_ok g = true -> Sim g s t -> op_ok_rm g o = true ->
-  not_emptying o (st_frame t) (st_frame (fst (ideal_step g t o))) = true ->
+  Sim g s t ->
   exists s', fst (step g s o) = Some s' /\ Sim g s' (fst (ideal_step g t o)) /\
     (o = Read -> obs_equiv g (snd (step g s o)) (snd (ideal_step g t o))).
 Proof.
-  intros Hg HSim Hok Hne. unfold op_ok_rm in Hok. apply andb_true_iff in Hok. destruct Hok as [Hn Hc].
-  pose proof HSim as [EF [HS [EA HI]]].
-  destruct o; simpl in Hn, Hc.
+  intros HSim. pose proof HSim as [EF [HS [EA HZ]]].
+  destruct o.
   - (* AddArray *)
     simpl. destruct (shape_ok (g_rows g) (g_cols g) a) eqn:SO.
     + apply shape_ok_iff in SO. rewrite <- EF.
       destruct (st_frame s) as [|p f] eqn:F.
       * eexists; split; [reflexivity|]. split; [|discriminate].
-        split; [reflexivity|]. split; [apply Shape_madd; auto|]. split; [|reflexivity].
+        split; [reflexivity|]. split; [apply Shape_madd; auto|]. split; [|cbn [st_frame]; intros N; contradiction].
         intros _. cbn [st_arr]. rewrite (EA eq_refl). reflexivity.
       * eexists; split; [reflexivity|]. split; [|discriminate].
-        apply add_sim; auto. apply centres_all_inside; auto.
+        apply add_sim; auto.
     + exists s. split; [reflexivity|]. split; [exact HSim|discriminate].
   - (* AddClusters *)
     simpl. eexists; split; [reflexivity|]. split; [|discriminate]. apply add_sim; auto.
@@ -116,64 +100,235 @@ Proof.
     destruct (st_frame s) as [|p f] eqn:F.
     + exists s. split; [reflexivity|]. split; [exact HSim|]. intros _. cbn [snd].
       rewrite <- (EA eq_refl). split; [exact HS|]. split; [exact HS|]. intros; reflexivity.
-    + assert (HW : forallb (wrappable g) (fcl (p :: f)) = true).
-      { eapply forallb_impl; [|exact HI]. intros c Hc'. apply inside_wrappable; auto. }
-      destruct (bin_spec g (fcl (p :: f)) (zeros (g_rows g) (g_cols g)) (Shape_zeros _ _) HW) as [m [B [Sm G]]].
+    + destruct (to_array_spec g (fcl (p :: f))) as [m [B [Sm G]]].
       rewrite B. cbn [fst snd]. eexists; split; [reflexivity|]. split.
-      * split; [exact EF|]. split; [exact Sm|]. split; [discriminate|exact HI].
+      * split; [exact EF|]. split; [exact Sm|]. split; [discriminate|exact HZ].
       * intros _. split; [exact Sm|]. split; [apply Shape_tabulate|].
-        intros i j Hi Hj. rewrite (G i j Hi Hj), mget_zeros. unfold bin_exact. rewrite mget_tabulate by auto.
-        rewrite (credit_ext (hit_wrap g) (hit_exact g)); [ring|].
-        intros c Hc'. apply inside_hit; auto. rewrite forallb_forall in HI. apply HI; auto.
+        intros i j Hi Hj. rewrite (G i j Hi Hj). unfold bin_exact. rewrite mget_tabulate by auto. reflexivity.
   - (* ReadFrame *)
     exists s. simpl. split; [reflexivity|]. split; [exact HSim|discriminate].
   - (* RemoveAll *)
-    simpl in *. eexists; split; [reflexivity|]. split; [|discriminate].
-    split; [reflexivity|]. split; [exact HS|]. split; [|reflexivity].
-    intros _. cbn [st_arr]. apply EA. rewrite EF. destruct (st_frame t); auto. discriminate.
+    simpl. eexists; split; [reflexivity|]. split; [|discriminate]. apply removed_all_sim; auto.
   - (* Remove *)
     destruct ids as [|k ids].
-    + simpl in *. eexists; split; [reflexivity|]. split; [|discriminate].
-      split; [reflexivity|]. split; [exact HS|]. split; [|reflexivity].
-      intros _. cbn [st_arr]. apply EA. rewrite EF. destruct (st_frame t); auto. discriminate.
-    + cbn [step ideal_step fst] in *. eexists; split; [reflexivity|]. split; [|discriminate].
-      cbn [st_frame st_arr]. rewrite <- EF in *.
-      split; [reflexivity|]. split; [exact HS|]. split; [|apply forallb_fcl_filter; auto].
-      intros E. apply EA. cbn [st_frame] in E. unfold not_emptying in Hne. cbn [is_removal st_frame] in Hne. rewrite E in Hne.
-      destruct (st_frame s); auto. discriminate.
+    + simpl. eexists; split; [reflexivity|]. split; [|discriminate]. apply removed_all_sim; auto.
+    + cbn [step ideal_step fst]. eexists; split; [reflexivity|]. split; [|discriminate].
+      apply (removed_sim g s t (fun p => negb (id_in (k :: ids) (fst p)))); auto.
   - (* Reset *)
     exists (init g). simpl. split; [reflexivity|]. split; [|discriminate].
-    split; [reflexivity|]. split; [apply Shape_zeros|]. split; reflexivity.
+    split; [reflexivity|]. split; [apply Shape_zeros|]. split; [reflexivity|]. intros N. contradiction.
 Qed.
 
-Lemma removal_safe_cons g t o ops :
-  removal_safe g t (o :: ops) =
-  not_emptying o (st_frame t) (st_frame (fst (ideal_step g t o))) && removal_safe g (fst (ideal_step g t o)) ops.
-Proof. reflexivity. Qed.
-
-Theorem sim_exec g ops : geom_ok g = true -> forall s t,
-  Sim g s t -> forallb (op_ok_rm g) ops = true -> removal_safe g t ops = true ->
-  exists s', exec g (Some s) ops = Some s' /\ Sim g s' (ideal_exec g t ops).
+Theorem sim_exec g ops : forall s t,
+  Sim g s t -> exists s', exec g (Some s) ops = Some s' /\ Sim g s' (ideal_exec g t ops).
 Proof.
-  intros Hg. induction ops as [|o ops IH]; intros s t HSim Hok Hsafe.
+  induction ops as [|o ops IH]; intros s t HSim.
   - exists s. split; [reflexivity|exact HSim].
-  - simpl in Hok. apply andb_true_iff in Hok. destruct Hok as [Ho Hok].
-    rewrite removal_safe_cons in Hsafe. apply andb_true_iff in Hsafe. destruct Hsafe as [Hne Hsafe].
-    destruct (step_sim g s t o Hg HSim Ho Hne) as [s' [E [HS' _]]].
-    destruct (IH s' _ HS' Hok Hsafe) as [s'' [E' HS'']].
+  - destruct (step_sim g s t o HSim) as [s' [E [HS' _]]].
+    destruct (IH s' _ HS') as [s'' [E' HS'']].
     exists s''. split; [|exact HS''].
     unfold exec in *. simpl. rewrite E. exact E'.
 Qed.
 
 Lemma Sim_init g : Sim g (init g) (init g).
-Proof. split; [reflexivity|]. split; [apply Shape_zeros|]. split; reflexivity. Qed.
+Proof. split; [reflexivity|]. split; [apply Shape_zeros|]. split; [reflexivity|]. intros N. contradiction. Qed.
 
-Theorem read_sim_ideal g ops :
-  geom_ok g = true -> forallb (op_ok_rm g) ops = true -> removal_safe g (init g) ops = true ->
-  obs_equiv g (read_after g ops) (ideal_read_after g ops).
+(* FULL: for every op sequence the container reads exactly like the ideal cache-free container *)
+Theorem read_sim_ideal g ops : obs_equiv g (read_after g ops) (ideal_read_after g ops).
 Proof.
-  intros Hg Hok Hsafe.
-  destruct (sim_exec g ops Hg _ _ (Sim_init g) Hok Hsafe) as [s' [E HS']].
-  destruct (step_sim g s' _ Read Hg HS' eq_refl eq_refl) as [_ [_ [_ R]]].
+  destruct (sim_exec g ops _ _ (Sim_init g)) as [s' [E HS']].
+  destruct (step_sim g s' _ Read HS') as [_ [_ [_ R]]].
   unfold read_after, ideal_read_after. rewrite E. exact (R eq_refl).
+Qed.
+
+(* memory safety: whatever the operations and wherever the clusters, a read is an array of the
+   detector's shape -- the out-of-bounds outcome of the unchecked loop is unreachable *)
+Theorem never_corrupt g ops :
+  exists m, read_after g ops = OArr m /\ Shape (g_rows g) (g_cols g) m.
+Proof.
+  pose proof (read_sim_ideal g ops) as H. unfold obs_equiv, ideal_read_after in H.
+  destruct (read_after g ops) as [| m | |]; try contradiction.
+  exists m. split; [reflexivity|apply H].
+Qed.
+
+Lemma obs_equiv_sym g a b : obs_equiv g a b -> obs_equiv g b a.
+Proof.
+  destruct a, b; simpl; auto. intros [A [B C]]. split; [exact B|]. split; [exact A|].
+  intros i j Hi Hj. symmetry. apply C; auto.
+Qed.
+
+Lemma obs_equiv_trans g a b c : obs_equiv g a b -> obs_equiv g b c -> obs_equiv g a c.
+Proof.
+  destruct a, b, c; simpl; try tauto. intros [A [B C]] [_ [D E]]. split; [exact A|]. split; [exact D|].
+  intros i j Hi Hj. rewrite (C i j Hi Hj). apply E; auto.
+Qed.
+
+Lemma ideal_exec_app g t a b : ideal_exec g t (a ++ b) = ideal_exec g (ideal_exec g t a) b.
+Proof. unfold ideal_exec. apply fold_left_app. Qed.
+
+(* FULL: a read is an observation -- inserting one anywhere never changes a later read *)
+Theorem read_pure g ops1 ops2 :
+  obs_equiv g (read_after g (ops1 ++ Read :: ops2)) (read_after g (ops1 ++ ops2)).
+Proof.
+  eapply obs_equiv_trans; [apply read_sim_ideal|].
+  apply obs_equiv_sym. eapply obs_equiv_trans; [apply read_sim_ideal|].
+  unfold ideal_read_after. rewrite !ideal_exec_app. simpl.
+  pose proof (read_sim_ideal g (ops1 ++ ops2)) as H.
+  unfold ideal_read_after in H. rewrite ideal_exec_app in H.
+  destruct (read_after g (ops1 ++ ops2)); simpl in H; try contradiction.
+  destruct H as [_ [H _]]. simpl. split; [exact H|]. split; [exact H|]. intros; reflexivity.
+Qed.
+
+(* reset: whatever came before, the next read is the zero array *)
+Theorem read_after_reset g ops : read_after g (ops ++ [Reset]) = OArr (zeros (g_rows g) (g_cols g)).
+Proof.
+  destruct (sim_exec g ops _ _ (Sim_init g)) as [s' [E _]].
+  unfold read_after. rewrite exec_snoc, E. reflexivity.
+Qed.
+
+(* ---------------------------------------------------------------- the ledger (accumulator with removals) *)
+
+Lemma ledger_snoc g ops o : ledger_of g (ops ++ [o]) = ledger_step g (ledger_of g ops) o.
+Proof. unfold ledger_of. rewrite fold_left_app. reflexivity. Qed.
+
+Lemma ledger_state g ops : snd (ledger_of g ops) = ideal_exec g (init g) ops.
+Proof.
+  induction ops as [|o ops IH] using rev_ind; [reflexivity|].
+  rewrite ledger_snoc, ideal_exec_app. simpl. rewrite IH. reflexivity.
+Qed.
+
+(* without removals the ledger is the plain accumulator *)
+Lemma ledger_no_removal g ops : has_removal ops = false -> forall i j, spec_ledger g ops i j = spec_acc g ops i j.
+Proof.
+  unfold spec_ledger, spec_acc.
+  induction ops as [|o ops IH] using rev_ind; intros H i j; [reflexivity|].
+  unfold has_removal in H. rewrite existsb_app in H. apply orb_false_iff in H. destruct H as [H1 H2].
+  simpl in H2. rewrite orb_false_r in H2.
+  rewrite ledger_snoc, acc_of_snoc. unfold ledger_step. cbn [fst].
+  assert (N : removal_ids o = None) by (destruct o; simpl in *; auto; discriminate).
+  rewrite N.
+  assert (E : forall f f' : nat -> nat -> Q, (forall i j, f i j = f' i j) ->
+              acc_step g (hit_exact g) f o i j = acc_step g (hit_exact g) f' o i j).
+  { intros f f' Hf. destruct o; simpl; auto.
+    - destruct (shape_ok (g_rows g) (g_cols g) a); rewrite Hf; auto.
+    - rewrite Hf; auto. }
+  apply E. intros. apply IH. exact H1.
+Qed.
+
+Lemma credit_partition hit (q : Z * cluster -> bool) f i j :
+  credit hit (fcl (filter q f)) i j + credit hit (fcl (filter (fun p => negb (q p)) f)) i j == credit hit (fcl f) i j.
+Proof.
+  unfold fcl. induction f as [|x f IH]; simpl; [ring|].
+  destruct (q x); simpl; rewrite <- IH; ring.
+Qed.
+
+Lemma filter_ext_in' {A} (p q : A -> bool) l : (forall x, p x = q x) -> filter p l = filter q l.
+Proof. intros H. induction l; simpl; auto. rewrite H, IHl. reflexivity. Qed.
+
+(* what a removal does to the array view: it debits exactly the selected clusters *)
+Lemma removal_view g s o ids :
+  removal_ids o = Some ids ->
+  exists s', fst (step g s o) = Some s' /\
+    (Inv g s -> Inv g s') /\
+    forall i j, view g s' i j == view g s i j - credit (hit_exact g) (fcl (selected ids (st_frame s))) i j.
+Proof.
+  intros Hr.
+  assert (K : forall (q : Z * cluster -> bool),
+    (Inv g s -> Inv g (removed g s (filter (fun p => negb (q p)) (st_frame s)))) /\
+    forall i j, view g (removed g s (filter (fun p => negb (q p)) (st_frame s))) i j ==
+                view g s i j - credit (hit_exact g) (fcl (filter q (st_frame s))) i j).
+  { intros q. unfold removed, view. destruct (st_frame s) as [|p f] eqn:F.
+    - simpl. split; [intros [A B]; split; [exact A|intros _; apply B; exact F]|]. intros; ring.
+    - destruct (filter (fun p0 => negb (q p0)) (p :: f)) as [|x r] eqn:E.
+      + split.
+        * intros _. split; [apply Shape_zeros|]. intros _ i j _ _. cbn [st_arr]. rewrite mget_zeros. apply Qle_refl.
+        * intros i j. cbn [st_frame st_arr]. rewrite mget_zeros.
+          rewrite <- (credit_partition (hit_exact g) q (p :: f) i j), E. simpl. ring.
+      + split.
+        * intros [A B]. split; [exact A|]. cbn [st_frame]. discriminate.
+        * intros i j. cbn [st_frame].
+          rewrite <- (credit_partition (hit_exact g) q (p :: f) i j), E. ring. }
+  assert (ALL : (Inv g s -> Inv g (removed g s [])) /\
+    forall i j, view g (removed g s []) i j == view g s i j - credit (hit_exact g) (fcl (st_frame s)) i j).
+  { destruct (K (fun _ => true)) as [KA KB]. simpl in KA, KB. rewrite filter_false in KA, KB.
+    split; [exact KA|]. intros i j. rewrite KB.
+    replace (filter (fun _ => true) (st_frame s)) with (st_frame s); [reflexivity|].
+    clear. induction (st_frame s); simpl; auto. f_equal; auto. }
+  destruct o; simpl in Hr; try discriminate; injection Hr as <-.
+  - (* RemoveAll *) eexists. split; [reflexivity|]. exact ALL.
+  - (* Remove *) destruct ids0 as [|k ids'].
+    + eexists. split; [reflexivity|]. exact ALL.
+    + eexists. split; [reflexivity|]. exact (K (fun p => id_in (k :: ids') (fst p))).
+Qed.
+
+(* FULL refinement: for ALL op sequences with non-negative arrays -- removals included, clusters
+   anywhere -- the state abstracts to the ledger and stays in step with the ideal container *)
+Theorem exec_ledger g ops :
+  geom_ok g = true -> forallb op_arrays_nonneg ops = true ->
+  exists s, exec g (Some (init g)) ops = Some s /\ Inv g s /\ Sim g s (ideal_exec g (init g) ops) /\
+    forall i j, (i < g_rows g)%nat -> (j < g_cols g)%nat -> view g s i j == spec_ledger g ops i j.
+Proof.
+  intros Hg. induction ops as [|o ops IH] using rev_ind; intros Hok.
+  - exists (init g). split; [reflexivity|]. split; [apply Inv_init|]. split; [apply Sim_init|].
+    intros i j _ _. unfold view, spec_ledger, ledger_of. simpl. rewrite mget_zeros. reflexivity.
+  - rewrite forallb_app in Hok. apply andb_true_iff in Hok. destruct Hok as [H1 H2].
+    simpl in H2. rewrite andb_true_r in H2.
+    destruct (IH H1) as [s [E [I [HSim V]]]].
+    destruct (step_sim g s _ o HSim) as [s1 [E1 [HSim1 _]]].
+    rewrite ideal_exec_app. cbn [ideal_exec fold_left]. fold (ideal_exec g (init g) ops).
+    unfold spec_ledger. rewrite ledger_snoc. unfold ledger_step. cbn [fst]. rewrite ledger_state.
+    destruct (removal_ids o) as [ids|] eqn:R.
+    + destruct (removal_view g s o ids R) as [s' [E' [I' V']]].
+      rewrite E1 in E'. injection E' as <-.
+      exists s1. split; [rewrite exec_snoc, E; exact E1|]. split; [apply I'; exact I|]. split; [exact HSim1|].
+      intros i j Hi Hj. rewrite V'. destruct HSim as [EF _]. rewrite EF. rewrite (V i j Hi Hj). reflexivity.
+    + assert (Hop : op_ok o = true).
+      { unfold op_ok. rewrite H2, andb_true_r. destruct o; simpl in *; auto; discriminate. }
+      destruct (step_ok g s o Hg I Hop) as [s' [E' [I' [V' _]]]].
+      rewrite E1 in E'. injection E' as <-.
+      exists s1. split; [rewrite exec_snoc, E; exact E1|]. split; [exact I'|]. split; [exact HSim1|].
+      intros i j Hi Hj. rewrite (V' i j Hi Hj). apply acc_step_ext. apply V; auto.
+Qed.
+
+Lemma read_view g s :
+  Shape (g_rows g) (g_cols g) (st_arr s) ->
+  exists m, read_of g (Some s) = OArr m /\ Shape (g_rows g) (g_cols g) m /\
+    forall i j, (i < g_rows g)%nat -> (j < g_cols g)%nat -> mget m i j == view g s i j.
+Proof.
+  intros HS. unfold read_of, step, view. destruct (st_frame s) as [|p f] eqn:F.
+  - exists (st_arr s). split; [reflexivity|]. split; [exact HS|]. intros; reflexivity.
+  - destruct (to_array_spec g (fcl (p :: f))) as [m [B [Sm G]]]. rewrite B. cbn [snd].
+    exists m. split; [reflexivity|]. split; [exact Sm|]. exact G.
+Qed.
+
+Theorem read_refines_ledger g ops :
+  geom_ok g = true -> forallb op_arrays_nonneg ops = true ->
+  exists m, read_after g ops = OArr m /\ Shape (g_rows g) (g_cols g) m /\
+    forall i j, (i < g_rows g)%nat -> (j < g_cols g)%nat -> mget m i j == spec_ledger g ops i j.
+Proof.
+  intros Hg Hok. destruct (exec_ledger g ops Hg Hok) as [s [E [I [_ V]]]].
+  destruct (read_view g s (proj1 I)) as [m [Em [Sm Gm]]].
+  exists m. split; [unfold read_after; rewrite E; exact Em|]. split; [exact Sm|].
+  intros i j Hi Hj. rewrite (Gm i j Hi Hj). apply V; auto.
+Qed.
+
+(* the two executable forms of the specification agree on removal-free sequences (was only tested) *)
+Theorem ideal_is_accumulator g ops :
+  geom_ok g = true -> forallb op_ok ops = true ->
+  exists n, ideal_read_after g ops = OArr n /\ Shape (g_rows g) (g_cols g) n /\
+    forall i j, (i < g_rows g)%nat -> (j < g_cols g)%nat -> mget n i j == spec_acc g ops i j.
+Proof.
+  intros Hg Hok.
+  destruct (read_refines_accumulator g ops Hg Hok) as [m [E [S G]]].
+  pose proof (read_sim_ideal g ops) as H. rewrite E in H. unfold ideal_read_after in *.
+  simpl in H. destruct H as [_ [Sn C]].
+  eexists. split; [reflexivity|]. split; [exact Sn|].
+  intros i j Hi Hj. rewrite <- (C i j Hi Hj). apply G; auto.
+Qed.
+
+(* the frames agree too: the `.frame` of the container is the live table of the ideal container *)
+Theorem frame_sim_ideal g ops : frame_after g ops = st_frame (ideal_exec g (init g) ops).
+Proof.
+  destruct (sim_exec g ops _ _ (Sim_init g)) as [s' [E [EF _]]].
+  unfold frame_after. rewrite E. exact EF.
 Qed.
